@@ -12,13 +12,15 @@ MC_Sets == [a |-> [keys |-> <<1, 2>>, weights |-> <<1, 1>>, threshold |-> 2, non
             b |-> [keys |-> <<2, 3>>, weights |-> <<1, 2>>, threshold |-> 2, nonce |-> 2],
             c |-> [keys |-> <<1, 3>>, weights |-> <<2, 1>>, threshold |-> 3, nonce |-> 3]]
 MC_GKeys == [k1 |-> [chain |-> "axelar", id |-> "k1"], k2 |-> [chain |-> "axelar", id |-> "k2"],
-             k3 |-> [chain |-> "axelar", id |-> "k3"], k5 |-> [chain |-> "ethereum", id |-> "k5"]]
+             k3 |-> [chain |-> "axelar", id |-> "k3"],
+             \* the SAME message id as k1, claimed from another chain
+             k1_e |-> [chain |-> "ethereum", id |-> "k1"]]
 MC_Deliveries ==
     [d_tx  |-> [key |-> "k1", srcChain |-> "axelar",   srcAddr |-> "hub",    dest |-> "its",   payload |-> "p_tx"],
      d_src |-> [key |-> "k1", srcChain |-> "axelar",   srcAddr |-> "nothub", dest |-> "its",   payload |-> "p_tx"],
      d_dp  |-> [key |-> "k2", srcChain |-> "axelar",   srcAddr |-> "hub",    dest |-> "its",   payload |-> "p_dp"],
      d_oth |-> [key |-> "k3", srcChain |-> "axelar",   srcAddr |-> "hub",    dest |-> "carol", payload |-> "p_tx"],
-     d_chn |-> [key |-> "k5", srcChain |-> "ethereum", srcAddr |-> "hub",    dest |-> "its",   payload |-> "p_tx"]]
+     d_chn |-> [key |-> "k1_e", srcChain |-> "ethereum", srcAddr |-> "hub",    dest |-> "its",   payload |-> "p_tx"]]
 MC_Msgs == [d \in DOMAIN MC_Deliveries |->
                 [key |-> MC_Deliveries[d].key, src |-> MC_Deliveries[d].srcAddr, dest |-> MC_Deliveries[d].dest,
                  ph |-> MC_Deliveries[d].payload]]
@@ -29,7 +31,7 @@ MC_IdOf == [alice |-> [s1 |-> "iA1"]]
 MC_IdCOf == [x \in {} |-> "none"]
 MC_Canon == {}
 MC_Metas == [good |-> [nameLen |-> 10, symLen |-> 4, decimals |-> 7, utf8 |-> TRUE, style |-> "ascii"]]
-MC_Keys == {"k1", "k2", "k3", "k5"}
+MC_Keys == {"k1", "k2", "k3", "k1_e"}
 
 A == INSTANCE Abi
 RawPayloads ==
